@@ -127,6 +127,8 @@ func worker(prop string, base uint64, from, count, stride int, limit float64, de
 	}
 	start := time.Now()
 	seenClass := map[string]int{}
+	var fallback []byte
+	fallbackSteps := 0
 	for k := 0; k < count; k++ {
 		i := from + k*stride
 		if limit > 0 && time.Since(start).Seconds() > limit {
@@ -169,6 +171,11 @@ func worker(prop string, base uint64, from, count, stride int, limit float64, de
 			materialise(sc)
 			b, _ := json.Marshal(rf)
 			sum.Samples = append(sum.Samples, b)
+		} else if w.nontrivial() && o.res.Steps < 3000 && (fallback == nil || o.res.Steps < fallbackSteps) {
+			rf := ReplayFile{Property: prop, RunSeed: sc.RunSeed, Scenario: sc, Decisions: flatten(o.trace), Hash: o.res.Hash, Steps: o.res.Steps}
+			materialise(sc)
+			fallback, _ = json.Marshal(rf)
+			fallbackSteps = o.res.Steps
 		}
 		for _, v := range o.viol {
 			v.RunIndex = i
@@ -196,6 +203,9 @@ func worker(prop string, base uint64, from, count, stride int, limit float64, de
 		if k%16 == 15 {
 			runtime.GC()
 		}
+	}
+	if len(sum.Samples) == 0 && fallback != nil {
+		sum.Samples = append(sum.Samples, fallback)
 	}
 	sum.WallS = time.Since(start).Seconds()
 	if hookSummary != nil {
